@@ -90,7 +90,7 @@ def model_value(model, e):
 
 
 def decide(check, crate, oid, setup, post, replay=None, rb=None, unwind=8, enums=None, models=None, allow_panic=None,
-           max_cex=1, timeout_ms=30000, min_paths=1, note=None, known_predicates=None, budget_s=600, describe=None, merge=None, prefer=None):
+           max_cex=1, timeout_ms=30000, min_paths=1, note=None, known_predicates=None, budget_s=600, describe=None, merge=None, prefer=None, need_reach=None):
     """One obligation.
 
     setup(ex, st) -> (fname, args, inputs)         inputs: dict name -> z3 expr / python value (reported in counterexamples)
@@ -123,6 +123,7 @@ def decide(check, crate, oid, setup, post, replay=None, rb=None, unwind=8, enums
             ex.assume(st, z3.Not(fn(inputs)))
             applied.append(k["id"])
         labels_seen = set()
+        reached = set()
         def cex_inputs(m):
             if describe is not None:
                 return describe(m, inputs)
@@ -156,6 +157,10 @@ def decide(check, crate, oid, setup, post, replay=None, rb=None, unwind=8, enums
                 continue
             detail["returns"] += 1
             for label, prop in post(ex, o, inputs):
+                if label.startswith("reach:"):  # vacuity witness: this condition must be satisfiable on some returning path
+                    if label not in reached and ex.check(prop) == z3.sat:
+                        reached.add(label)
+                    continue
                 labels_seen.add(label)
                 p = z3.simplify(prop) if not isinstance(prop, bool) else z3.BoolVal(prop)
                 if z3.is_true(p):
@@ -176,6 +181,12 @@ def decide(check, crate, oid, setup, post, replay=None, rb=None, unwind=8, enums
         if detail["returns"] < min_paths and not cex:
             status = "inconclusive"
             detail["vacuous"] = "only %d returning paths" % detail["returns"]
+        if need_reach and not cex:
+            missing = [l for l in need_reach if l not in reached]
+            detail["reached"] = len(reached)
+            if missing:
+                status = "inconclusive"
+                detail["vacuous"] = "never reached: %s" % missing[:4]
     except MirUnsupported as e:
         status = "inconclusive"
         detail["unsupported"] = str(e)[:600]
